@@ -94,6 +94,7 @@ type FuncSpec struct {
 	ResultNames []string
 	Verify      bool // has a body in /repo to verify
 	Handler     string
+	SpawnChecked bool // "spawned checked"
 	LockExempt  string   // "lockexempt #label": the lock rules do not apply in this function (start-up code), listed as an assumption
 	Acquires    []string // trusted lock operations: parameter names whose mutex is acquired / released
 	Releases    []string
@@ -138,7 +139,7 @@ type CallersRule struct {
 	Line    int
 }
 
-var kwRe = regexp.MustCompile(`^(requires|ensures|assume|returns|observe|ghostset|modifies|cover|loop|results|nopanic|inline|unroll|atcall|handler|intmode|reveal|acquires|releases|lockexempt)\b`)
+var kwRe = regexp.MustCompile(`^(requires|ensures|assume|returns|observe|ghostset|modifies|cover|loop|results|nopanic|inline|unroll|atcall|handler|intmode|reveal|acquires|releases|lockexempt|spawned)\b`)
 
 // readSpecLines extracts the //@ lines of a file ("\" continues a line).
 func readSpecLines(path string) ([]string, []int, error) {
@@ -450,6 +451,13 @@ func parseSpecFile(path string, ps *PkgSpec, trustedFile bool) error {
 				cur.Reveal = append(cur.Reveal, strings.Fields(rest)...)
 			case "handler":
 				cur.Handler = "route " + rest
+			case "spawned":
+				// spawned checked: the bodies of goroutines this function starts are run once, in the state of the go
+				// statement, against the call-site clauses of this contract (their effects on the starter are dropped)
+				if strings.TrimSpace(rest) != "checked" {
+					return fmt.Errorf("%s:%d: spawned checked", path, ln)
+				}
+				cur.SpawnChecked = true
 			case "unroll":
 				f := strings.Fields(rest) // unroll <loop> <n>
 				if len(f) != 2 {
